@@ -33,11 +33,172 @@ def _is_method_call(e, name: str) -> bool:
             and isinstance(e.func.value, ast.Name) and e.func.value.id in (SELF, "cls", "self"))
 
 
+def _int(s: str) -> Optional[int]:
+    try:
+        return int(s)
+    except ValueError:
+        return None
+
+
+def _is_text(t: str) -> bool:
+    return t[:1] in "'\"" or t.startswith("fmt(")
+
+
+def _pieces(t: str) -> List[str]:
+    """the pieces of a text template: a string literal (blanks dropped, as in fmt), the pieces of a fmt(...), or one hole"""
+    if t[:1] in "'\"":
+        v = ast.literal_eval(t)
+        if not isinstance(v, str):
+            raise TranslationError("text piece: " + t)
+        v = v.replace(" ", "")
+        return [repr(v)] if v else []
+    if t.startswith("fmt(") and t.endswith(")") and _balanced(t[4:-1]):
+        out, d, cur, q = [], 0, "", None
+        for ch in t[4:-1]:
+            if q:
+                cur += ch
+                if ch == q:
+                    q = None
+                continue
+            if ch in "'\"":
+                q = ch
+            d += ch == "("
+            d -= ch == ")"
+            if ch == " " and d == 0:
+                out.append(cur)
+                cur = ""
+            else:
+                cur += ch
+        return [x for x in out + [cur] if x]
+    return [t]
+
+
+def compare(l: str, op: str, r: str) -> str:
+    """integer comparisons against a literal in one spelling: `a > k` (k on the right; `>`) or `a < k`, so that
+    `level > 1`, `level >= 2`, `1 < level`, `not level <= 1` read the same (ints: a >= k  <=>  a > k-1)"""
+    if _int(l) is not None and _int(r) is None:
+        l, r = r, l
+        op = {">": "<", "<": ">", ">=": "<=", "<=": ">="}.get(op, op)
+    k = _int(r)
+    if k is not None:
+        if op == ">=":
+            return f"{l} > {k - 1}"
+        if op == "<=":
+            return f"{l} < {k + 1}"
+    if op == "!=":
+        return negate(f"{l} == {r}")
+    return f"{l} {op} {r}"
+
+
+def negate(c: str) -> str:
+    import re
+    if c.startswith("not(") and c.endswith(")") and _balanced(c[4:-1]):
+        return c[4:-1]
+    m = re.fullmatch(r"(.*) ([<>]) (-?\d+)", c)
+    if m and _balanced(m.group(1)) and " " not in m.group(1).replace(" + ", "+"):
+        l, op, k = m.group(1), m.group(2), int(m.group(3))
+        return f"{l} < {k + 1}" if op == ">" else f"{l} > {k - 1}"
+    return f"not({c})"
+
+
+def _balanced(s: str) -> bool:
+    d, q, esc = 0, None, False
+    for ch in s:
+        if q:
+            if esc:
+                esc = False
+            elif ch == "\\":
+                esc = True
+            elif ch == q:
+                q = None
+            continue
+        if ch in "'\"":
+            q = ch
+            continue
+        d += ch == "("
+        d -= ch == ")"
+        if d < 0:
+            return False
+    return d == 0 and q is None
+
+
+def mk_if(c: str, a: str, b: str) -> str:
+    """a negated test swaps the branches; `level < 2` is read as `level > 1` with the branches swapped (one orientation
+    per variable kind would do; the model's templates use `level > 1` and `len(..) < 2`, so `>` is kept for names, `<` for len)"""
+    if c.startswith("not(") and c.endswith(")") and _balanced(c[4:-1]):
+        return mk_if(c[4:-1], b, a)
+    import re
+    m = re.fullmatch(r"(\w+) < (-?\d+)", c)
+    if m:
+        return f"if({m.group(1)} > {int(m.group(2)) - 1}, {b}, {a})"
+    m = re.fullmatch(r"(len\(.*\)) > (-?\d+)", c)
+    if m and _balanced(m.group(1)):
+        return f"if({m.group(1)} < {int(m.group(2)) + 1}, {b}, {a})"
+    if a == b:
+        return a
+    return f"if({c}, {a}, {b})"
+
+
 class Sym:
     """symbolic evaluation of the straight-line/if code of one branch"""
 
-    def __init__(self, params: Dict[str, str]):
+    KNOWN = ("logical_connector", "primitive", "operands", "top_level_logic")
+
+    def __init__(self, params: Dict[str, str], cls: Optional[ast.ClassDef] = None, mod: Optional[ast.Module] = None,
+                 stack: tuple = ()):
         self.params = params      # python name -> canonical name (resource, c7n_filter, level)
+        self.cls, self.mod, self.stack = cls, mod, stack
+
+    def _helper(self, e) -> Optional[ast.FunctionDef]:
+        """the definition of a private helper called as C7N_Rewriter.h(...) / cls.h(...) / module-level h(...), if any"""
+        if not isinstance(e, ast.Call):
+            return None
+        body, name = None, None
+        if (isinstance(e.func, ast.Attribute) and isinstance(e.func.value, ast.Name) and e.func.value.id in (SELF, "cls", "self")
+                and e.func.attr not in self.KNOWN and self.cls is not None):
+            body, name = self.cls.body, e.func.attr
+        elif isinstance(e.func, ast.Name) and self.mod is not None and e.func.id not in ("list", "iter", "tuple", "len", "set", "isinstance"):
+            body, name = self.mod.body, e.func.id
+        if body is None:
+            return None
+        for n in body:
+            if isinstance(n, ast.FunctionDef) and n.name == name:
+                return n
+        return None
+
+    def inline(self, fn: ast.FunctionDef, e: ast.Call, env: Dict[str, str]) -> str:
+        """a call of an extracted helper is replaced by the template its body returns, with the (pure, symbolic)
+        argument templates substituted for the parameters; helpers may call helpers (no recursion)"""
+        if fn.name in self.stack or len(self.stack) >= 3:
+            raise TranslationError(f"recursive / too deeply nested helper {fn.name}")
+        a = fn.args
+        if a.vararg or a.kwarg or a.kwonlyargs or a.posonlyargs:
+            raise TranslationError(f"helper {fn.name}: parameter list shape")
+        names = [x.arg for x in a.args]
+        decos = {ast.unparse(d) for d in fn.decorator_list}
+        if decos - {"staticmethod", "classmethod"}:
+            raise TranslationError(f"helper {fn.name}: decorator {sorted(decos)}")
+        if "classmethod" in decos or (self.cls is not None and fn in self.cls.body and "staticmethod" not in decos):
+            names = names[1:]          # cls / self
+        bound: Dict[str, str] = {}
+        if len(e.args) > len(names) or any(isinstance(x, ast.Starred) for x in e.args):
+            raise TranslationError(f"helper {fn.name}: call shape")
+        for n, x in zip(names, e.args):
+            bound[n] = self.expr(x, env)
+        for k in e.keywords:
+            if k.arg is None or k.arg not in names or k.arg in bound:
+                raise TranslationError(f"helper {fn.name}: keyword {k.arg}")
+            bound[k.arg] = self.expr(k.value, env)
+        for n, d in zip(names[len(names) - len(a.defaults):], a.defaults):
+            if n not in bound:
+                bound[n] = self.expr(d, {})
+        if set(bound) != set(names):
+            raise TranslationError(f"helper {fn.name}: missing argument")
+        sub = Sym({}, self.cls, self.mod, self.stack + (fn.name,))
+        r = sub.block(strip_doc(fn.body), bound)
+        if r is None:
+            raise TranslationError(f"helper {fn.name} falls through")
+        return r
 
     def expr(self, e, env: Dict[str, str]) -> str:
         if isinstance(e, ast.Name):
@@ -48,6 +209,8 @@ class Sym:
             raise TranslationError(f"free name {e.id}")
         if isinstance(e, ast.Constant):
             return repr(e.value)
+        if isinstance(e, ast.List) and not e.elts:
+            return "[]"
         if _is_method_call(e, "logical_connector"):
             if len(e.args) != 3 or e.keywords:
                 raise TranslationError("logical_connector call shape: " + ast.unparse(e))
@@ -65,8 +228,18 @@ class Sym:
         if _is_method_call(e, "top_level_logic"):
             return f"top_level_logic({self.expr(e.args[0], env)})"
         if (isinstance(e, ast.Call) and isinstance(e.func, ast.Attribute) and e.func.attr == "join"
-                and isinstance(e.func.value, ast.Constant) and isinstance(e.func.value.value, str) and len(e.args) == 1):
-            return f"join({e.func.value.value.strip()!r}, {self.expr(e.args[0], env)})"
+                and isinstance(e.func.value, (ast.Constant, ast.Name)) and len(e.args) == 1 and not e.keywords):
+            sep = self.expr(e.func.value, env)          # a literal, or a local / helper parameter bound to one
+            try:
+                sepv = ast.literal_eval(sep)
+            except Exception:
+                sepv = None
+            if not isinstance(sepv, str):
+                raise TranslationError("join: separator is not a string constant: " + ast.unparse(e.func.value))
+            return f"join({sepv.strip()!r}, {self.expr(e.args[0], env)})"
+        fn = self._helper(e)
+        if fn is not None:
+            return self.inline(fn, e, env)
         if isinstance(e, (ast.ListComp, ast.GeneratorExp)):
             if len(e.generators) != 1 or e.generators[0].ifs or not isinstance(e.generators[0].target, ast.Name):
                 raise TranslationError("comprehension shape: " + ast.unparse(e))
@@ -93,15 +266,43 @@ class Sym:
                     raise TranslationError("f-string piece: " + ast.unparse(e))
             return "fmt(" + " ".join(parts) + ")"
         if isinstance(e, ast.IfExp):
-            return f"if({self.expr(e.test, env)}, {self.expr(e.body, env)}, {self.expr(e.orelse, env)})"
+            return mk_if(self.expr(e.test, env), self.expr(e.body, env), self.expr(e.orelse, env))
+        if isinstance(e, ast.UnaryOp) and isinstance(e.op, ast.Not):
+            return negate(self.expr(e.operand, env))
         if isinstance(e, ast.Compare) and len(e.ops) == 1:
             op = {ast.Gt: ">", ast.GtE: ">=", ast.Lt: "<", ast.LtE: "<=", ast.Eq: "==", ast.NotEq: "!="}.get(type(e.ops[0]))
             if op is None:
                 raise TranslationError("comparison: " + ast.unparse(e))
-            return f"{self.expr(e.left, env)} {op} {self.expr(e.comparators[0], env)}"
+            return compare(self.expr(e.left, env), op, self.expr(e.comparators[0], env))
         if isinstance(e, ast.BinOp) and isinstance(e.op, ast.Add):
-            return f"{self.expr(e.left, env)} + {self.expr(e.right, env)}"
+            l, r = self.expr(e.left, env), self.expr(e.right, env)
+            if _is_text(l) or _is_text(r):
+                return "fmt(" + " ".join(_pieces(l) + _pieces(r)) + ")"      # "(" + x + ")"  ==  f"({x})"
+            if _int(l) is not None and _int(r) is None:
+                l, r = r, l                                                   # 1 + level  ==  level + 1
+            return f"{l} + {r}"
         raise TranslationError("unsupported expression: " + ast.unparse(e)[:80])
+
+    def appended(self, stmts, env: Dict[str, str], acc: str) -> str:
+        """the one element a loop body appends to `acc` (on every path exactly one append, as the last statement)"""
+        stmts = [st for st in stmts if not (is_logger_call(st) or isinstance(st, ast.Pass)
+                                            or (isinstance(st, ast.Expr) and isinstance(st.value, ast.Constant)))]
+        env = dict(env)
+        for st in stmts[:-1]:
+            if isinstance(st, ast.Assign) and len(st.targets) == 1 and isinstance(st.targets[0], ast.Name) and st.targets[0].id != acc:
+                env[st.targets[0].id] = self.expr(st.value, env)
+            else:
+                raise TranslationError("loop body: unsupported statement before the append")
+        if not stmts:
+            raise TranslationError("loop body appends nothing")
+        last = stmts[-1]
+        if (isinstance(last, ast.Expr) and isinstance(last.value, ast.Call) and isinstance(last.value.func, ast.Attribute)
+                and last.value.func.attr == "append" and isinstance(last.value.func.value, ast.Name)
+                and last.value.func.value.id == acc and len(last.value.args) == 1 and not last.value.keywords):
+            return self.expr(last.value.args[0], env)
+        if isinstance(last, ast.If) and last.orelse:
+            return mk_if(self.expr(last.test, env), self.appended(last.body, env, acc), self.appended(last.orelse, env, acc))
+        raise TranslationError("loop body: expected acc.append(E) on every path")
 
     def block(self, stmts, env: Dict[str, str]) -> Optional[str]:
         """returns the canonical returned template, or None if the block falls through (env updated)"""
@@ -120,27 +321,42 @@ class Sym:
                 continue
             if isinstance(st, ast.Return):
                 return self.expr(st.value, env)
+            if isinstance(st, ast.For):
+                # acc = []; for v in SRC: acc.append(E)   ==   acc = [E for v in SRC]   (E may be chosen by an if/else)
+                if st.orelse or not isinstance(st.target, ast.Name):
+                    raise TranslationError("for loop shape")
+                accs = {n.func.value.id for n in ast.walk(st) if isinstance(n, ast.Call) and isinstance(n.func, ast.Attribute)
+                        and n.func.attr == "append" and isinstance(n.func.value, ast.Name)}
+                if len(accs) != 1:
+                    raise TranslationError("for loop: expected appends to one accumulator")
+                acc = accs.pop()
+                if env.get(acc) != "[]":
+                    raise TranslationError(f"for loop: accumulator {acc} is not an empty list before the loop")
+                env2 = dict(env)
+                env2[st.target.id] = "x"
+                env[acc] = f"map({self.appended(st.body, env2, acc)}, x, {self.expr(st.iter, env)})"
+                continue
             if isinstance(st, ast.If):
                 c = self.expr(st.test, env)
                 e1, e2 = dict(env), dict(env)
                 r1 = self.block(st.body, e1)
                 r2 = self.block(st.orelse, e2)
                 if r1 is not None and r2 is not None:
-                    return f"if({c}, {r1}, {r2})"
+                    return mk_if(c, r1, r2)
                 if r1 is None and r2 is None:
                     for k in set(e1) | set(e2):
                         a, b = e1.get(k), e2.get(k)
                         if a != b:
                             if a is None or b is None:
                                 raise TranslationError(f"variable {k} assigned on one path only")
-                            env[k] = f"if({c}, {a}, {b})"
+                            env[k] = mk_if(c, a, b)
                         else:
                             env[k] = a
                     continue
                 rest = self.block(stmts[i + 1:], e1 if r1 is None else e2)
                 if rest is None:
                     raise TranslationError("fall-through after if")
-                return f"if({c}, {rest}, {r2})" if r1 is None else f"if({c}, {r1}, {rest})"
+                return mk_if(c, rest, r2) if r1 is None else mk_if(c, r1, rest)
             raise TranslationError("unsupported statement: " + type(st).__name__)
         return None
 
@@ -178,7 +394,7 @@ def connector_branches() -> Dict[str, str]:
     if not (len(defaults) == 1 and isinstance(defaults[0], ast.Constant) and defaults[0].value == 0):
         raise TranslationError("logical_connector: level must default to 0")
     pres, pfil, plev = names
-    sym = Sym({pres: "resource", pfil: "filter", plev: "level"})
+    sym = Sym({pres: "resource", pfil: "filter", plev: "level"}, cls, m)
     out: Dict[str, str] = {}
 
     def dispatch(stmts, env):
@@ -222,7 +438,7 @@ def operands_template() -> str:
     names = [a.arg for a in f.args.args]
     if len(names) != 1:
         raise TranslationError("operands: expected one parameter")
-    sym = Sym({names[0]: "clauses"})
+    sym = Sym({names[0]: "clauses"}, cls, m)
     r = sym.block(strip_doc(f.body), {})
     if r is None:
         raise TranslationError("operands falls through")
